@@ -53,6 +53,33 @@ func (c *Cond) Expr() string {
 	panic("cond op " + c.Op)
 }
 
+// XPathExpr: the same condition in XPath 1.0 syntax (instance variables are child elements of the context node)
+func (c *Cond) XPathExpr() string {
+	switch c.Op {
+	case "true":
+		return "true()"
+	case "false":
+		return "false()"
+	case "eq":
+		return fmt.Sprintf("%s = %d", c.Var, c.K)
+	case "ne":
+		return fmt.Sprintf("%s != %d", c.Var, c.K)
+	case "lt":
+		return fmt.Sprintf("%s < %d", c.Var, c.K)
+	case "and":
+		return "(" + c.L.XPathExpr() + ") and (" + c.R.XPathExpr() + ")"
+	case "or":
+		return "(" + c.L.XPathExpr() + ") or (" + c.R.XPathExpr() + ")"
+	case "not":
+		return "not(" + c.L.XPathExpr() + ")"
+	case "informal":
+		return "whatever"
+	case "nonbool":
+		return fmt.Sprintf("%s + %d", c.Var, c.K)
+	}
+	panic("cond op " + c.Op)
+}
+
 // RPN: comma separated postfix tokens; `none` is used for "no condition".
 func (c *Cond) RPN() string {
 	switch c.Op {
@@ -108,6 +135,8 @@ type Graph struct {
 	nf    int
 	// CondRPN maps the expression text found in the parsed definitions back to RPN
 	CondRPN    map[string]string
+	// XPath: the definitions declare XPath as their expression language and every condition is written in XPath
+	XPath bool
 	Executable bool
 	ProcID     string
 }
@@ -165,6 +194,9 @@ func (g *Graph) Connect(src, dst *Node, cond *Cond) *SeqFlow {
 	dst.In = append(dst.In, f.ID)
 	if cond != nil {
 		g.CondRPN[strings.TrimSpace(cond.Expr())] = cond.RPN()
+		if !strings.Contains(cond.RPN(), "v:@") {
+			g.CondRPN[strings.TrimSpace(cond.XPathExpr())] = cond.RPN()
+		}
 	}
 	return f
 }
@@ -191,7 +223,11 @@ func (g *Graph) ShuffleDecl(next func(n int) int) {
 // XML renders the graph as a BPMN document with a single process.
 func (g *Graph) XML() string {
 	var sb strings.Builder
-	sb.WriteString(header)
+	if g.XPath {
+		sb.WriteString(strings.Replace(header, `expressionLanguage="https://github.com/expr-lang/expr"`, `expressionLanguage="http://www.w3.org/1999/XPath"`, 1))
+	} else {
+		sb.WriteString(header)
+	}
 	for _, n := range g.Nodes {
 		for _, d := range n.Defs {
 			_ = d
@@ -279,8 +315,12 @@ func (g *Graph) container(sb *strings.Builder, parent string) {
 		if f.Cond.Op == "informal" {
 			fmt.Fprintf(sb, "><bpmn:conditionExpression>%s</bpmn:conditionExpression></bpmn:sequenceFlow>\n", f.Cond.Expr())
 		} else {
+			text := f.Cond.Expr()
+			if g.XPath {
+				text = f.Cond.XPathExpr()
+			}
 			fmt.Fprintf(sb, "><bpmn:conditionExpression xsi:type=\"bpmn:tFormalExpression\">%s</bpmn:conditionExpression></bpmn:sequenceFlow>\n",
-				xmlEsc(f.Cond.Expr()))
+				xmlEsc(text))
 		}
 	}
 }
